@@ -8,6 +8,7 @@ let runners : (string * (string -> string list -> string list list -> (string ->
   ("C10", Drv_c10.run);
   ("C02", Drv_c02.run);
   ("C16", Drv_c16.run);
+  ("C20", Drv_c20.run);
   ("C07", Drv_c07.run);
   ("C11", Drv_c11.run);
   ("C05", Drv_c05.run);
